@@ -49,6 +49,12 @@ def check_dump(case, ev):
             # a map left over from an earlier run with another salt must simply be overwritten
             with open(dump, "w") as fh:
                 fh.write("9.9.9.9\t1.1.1.1\n2001:db8::9\t2001:db8::1\n")
+        import logging
+
+        root_ = logging.getLogger()
+        level_ = root_.level
+        if case.get("debug"):
+            root_.setLevel(logging.DEBUG)  # what `--log-level DEBUG` does: the dump lists the same pairs
         if via == "api":
             _, exc = guarded(
                 anonymize_files,
@@ -72,11 +78,14 @@ def check_dump(case, ev):
             if cfg.get("networks"):
                 argv += ["--preserve-addresses", ",".join(cfg["networks"])]
             _, exc = guarded(main, argv)
+        root_.setLevel(level_)
         if exc is not None:
             return core.exc_finding(exc, case, "run/")
         if not os.path.exists(dump):
             return Finding("dump/missing", "no dump file written for cfg=%r" % (cfg,), case)
         raw = open(dump, encoding="utf-8").read()
+        if case.get("_raw_only"):
+            return raw
         outs = {}
         for name, _ in files:
             p = os.path.join(d, "out", name)
@@ -143,8 +152,14 @@ def check_dump(case, ev):
         want = (f4 if o.version == 4 else f6).anonymize(int(o))
         if want != int(a):
             return Finding("dump/pair-disagrees-with-mapping-function:v%d" % o.version, "cfg=%r: dump has %s -> %s, a fresh anonymizer maps it to %s" % (cfg, o, a, type(o)(want)), case)
+    if case.get("debug"):
+        # the same run without debug logging: the map must be the same, line for line
+        raw2 = check_dump(dict(case, debug=False, _raw_only=True), core.Ev())
+        if isinstance(raw2, str) and raw2 != raw:
+            extra = sorted(set(raw.split("\n")) ^ set(raw2.split("\n")))
+            return Finding("dump/map-depends-on-the-log-level", "cfg=%r: with the root logger at DEBUG the dump differs from the dump of the same run at the default level in lines %r" % (cfg, extra[:4]), case)
     B = cfg["B4"]
-    ev.case(case, len(replaced[4]) >= 2 and len(replaced[6]) >= 2, ["via-" + via, "B4-%s" % (B if B in (0, 1, 8, 31, 32) else "other"), "files%d" % len(files), "pairs%d" % min(len(pairs) // 5 * 5, 20)] + (["undecodable-file-in-between"] if case.get("bad") else []))
+    ev.case(case, len(replaced[4]) >= 2 and len(replaced[6]) >= 2, ["via-" + via, "B4-%s" % (B if B in (0, 1, 8, 31, 32) else "other"), "files%d" % len(files), "pairs%d" % min(len(pairs) // 5 * 5, 20)] + (["undecodable-file-in-between"] if case.get("bad") else []) + (["debug-logging"] if case.get("debug") else []))
     return None
 
 
@@ -208,7 +223,7 @@ def _case(draw):
             lines.append([{"t": "sep", "s": "ip route "}, {"t": "v4img", "mask": m}, {"t": "sep", "s": " "}, {"t": "v4", "s": G.v4_canon(m), "n": m, "kind": "canon"}, {"t": "sep", "s": ""}])
         files.append(["f%d.cfg" % i, lines])
     bad = draw(st.lists(st.integers(0, 3), max_size=2, unique=True)) if draw(st.integers(0, 3)) == 0 else []
-    return {"cfg": cfg, "files": files, "via": via, "bad": bad, "stale_dump": draw(st.integers(0, 3)) == 0}
+    return {"cfg": cfg, "files": files, "via": via, "bad": bad, "stale_dump": draw(st.integers(0, 3)) == 0, "debug": draw(st.integers(0, 3)) == 0}
 
 
 def t_dump(shard, nshards, seed, ev, known, n=100):
